@@ -587,8 +587,90 @@ def h_threads(ctx):
     return conc.pairs(ctx, menu, lambda: {"key": A.jkey(scen.key(kind), "dict")}, judge, thorough=config.thorough())
 
 
+# ------------------------------------------------------------------ sequences: an earlier decryption must not reach a later one
+def corrupt_stream(ok_output, how):
+    """A raw DEFLATE stream that inflates `ok_output` octets correctly and then goes wrong."""
+    import zlib
+    c = zlib.compressobj(9, zlib.DEFLATED, -15)
+    good = c.compress(bytes((i * 31 + 7) % 251 for i in range(ok_output))) + c.flush(zlib.Z_FULL_FLUSH)
+    if how == "invalid-block-type":
+        return good + b"\x07\x00\x00"                 # BFINAL=1, BTYPE=3 (reserved)
+    if how == "bad-stored-length":
+        return good + b"\x01\x05\x00\x00\x00abcde"       # stored block whose NLEN is not the complement of LEN
+    if how == "truncated":
+        return good[:-3]
+    return good + b"\x03\x00" + b"trailing garbage"     # a complete stream followed by more octets
+
+
+def h_sequences(ctx):
+    """Decrypt a first token (valid; or authentic but with a compressed body that goes wrong after some output), let the caller edit
+    what came back, then decrypt honest tokens: each returns exactly the plaintext that was encrypted."""
+    from joserfc import jwe
+    from . import c16
+    alg, kind, enc = ctx.choose("alg/key/enc", [("dir", "oct16", "A128GCM"), ("A128KW", "oct16", "A128CBC-HS256"), ("ECDH-ES", "P-256", "A128GCM")])
+    form = ctx.choose("form", ["compact", "flattened"])
+    first = ctx.choose("first_token", ["valid-zip", "valid-plain", "zip-corrupt-at-0", "zip-corrupt-after-1KiB", "zip-corrupt-after-20KiB", "zip-corrupt-after-70KiB",
+                                       "zip-truncated-after-40KiB", "zip-trailing-garbage", "zip-bomb"])
+    how_bad = ctx.choose("corruption", ["invalid-block-type", "bad-stored-length"]) if "corrupt" in first else None
+    edit = ctx.choose("caller_edit", ["none", "protected.pop(zip)", "protected[zip]=DEF", "protected.clear()", "plaintext overwritten"]) if first.startswith("valid") else "none"
+    jwk = scen.key(kind)
+    key = A.jkey(jwk, "dict")
+    algs = [alg, enc, "DEF"]
+
+    def honest(n, zipv):
+        pt = b"honest plaintext #%d " % n * 40
+        t = c16.jwe_seed(alg, kind, enc, form, zipv=zipv, plaintext=pt)
+        return c16.jwe_wire(t, form), pt
+    if first.startswith("valid"):
+        tok1, pt1 = honest(0, "DEF" if first == "valid-zip" else None)
+    else:
+        t = c16.jwe_seed(alg, kind, enc, form, zipv="DEF")
+        n_ok = {"zip-corrupt-at-0": 0, "zip-corrupt-after-1KiB": 1024, "zip-corrupt-after-20KiB": 20 * 1024, "zip-corrupt-after-70KiB": 70 * 1024,
+                "zip-truncated-after-40KiB": 40 * 1024, "zip-trailing-garbage": 3000, "zip-bomb": 0}[first]
+        if first == "zip-bomb":
+            import zlib
+            c = zlib.compressobj(9, zlib.DEFLATED, -15)
+            body = c.compress(b"\0" * (4 << 20)) + c.flush()
+        else:
+            body = corrupt_stream(n_ok, how_bad or ("truncated" if "truncated" in first else "trailing"))
+        tok1, pt1 = c16.jwe_wire(t, form, body=body), None
+
+    def dec(tok):
+        if isinstance(tok, str):
+            return jwe.decrypt_compact(tok, key, algorithms=algs)
+        return jwe.decrypt_json(copy.deepcopy(tok), key, algorithms=algs)
+    vs = []
+    r1 = call(dec, tok1)
+    tag = f"{fam_of(alg)} {ENC[enc][0]} {form}"
+    if pt1 is not None:
+        if not r1.ok or bytes(r1.value.plaintext) != pt1:
+            return Outcome("first-failed", [viol(f"valid JWE of the independent implementation is not decrypted (decrypt): {tag}", f"{first}: {r1.exc!r}")], nontrivial=(alg, form, first))
+        o = r1.value
+        if edit == "protected.pop(zip)":
+            o.protected.pop("zip", None)
+        elif edit == "protected[zip]=DEF":
+            o.protected["zip"] = "DEF"
+        elif edit == "protected.clear()":
+            o.protected.clear()
+        elif edit == "plaintext overwritten":
+            o.plaintext = b"overwritten by the caller"
+    elif r1.ok and "corrupt" in first:
+        vs.append(viol(f"a JWE whose compressed body is corrupt is decrypted [{first}]: {tag}", f"returned {len(r1.value.plaintext)} octets"))
+    # honest tokens follow: the same header octets as the first one (zip / no zip), then the other kind
+    same_zip = "DEF" if first != "valid-plain" else None
+    for n, zipv in ((1, same_zip), (2, same_zip), (3, None if same_zip else "DEF")):
+        tok, pt = honest(n, zipv)
+        r = call(dec, tok)
+        if not r.ok or bytes(r.value.plaintext) != pt:
+            got = (bytes(r.value.plaintext)[:40], len(r.value.plaintext)) if r.ok else r.exc
+            vs.append(viol(f"decryption after an earlier {'rejected' if pt1 is None else 'valid'} token does not return the plaintext that was encrypted [{first if pt1 is None else edit}]: {tag}",
+                           f"first token {first} ({how_bad}), caller edit {edit}; honest token #{n} (zip={zipv}): got {got!r}"))
+    return Outcome(f"seq:{'first-ok' if r1.ok else 'first-rej'}:{'ok' if not vs else 'bad'}", vs, nontrivial=(alg, form, first, how_bad, edit))
+
+
 PARTS = [
     Part("faults", h_faults, bound={"quick": 1, "thorough": 2}, split_depth=4, budget={"quick": 2000, "thorough": 3000}),
     Part("recipient-sets", h_recipients, split_depth=3),
+    Part("sequences", h_sequences, split_depth=3),
     Part("thread-schedules", h_threads, bound={"quick": 1, "thorough": 2}, split_depth=2, budget={"quick": 2000, "thorough": 3000}, engine="E3"),
 ]
